@@ -599,10 +599,14 @@ bool GennaroJareckiKrawczykRabinDKG::Generate
 		mpz_set_ui(rhs, n); // broadcast end marker
 		rbc->Broadcast(rhs);
 		complaints_counter.clear(), complaints_from.clear(); // reset for final complaint resolution
+		std::vector< std::vector<size_t> > complainers(n); // who complained against whom
 		for (size_t j = 0; j < n; j++)
 			complaints_counter.push_back(0); // initialize counter
 		for (std::vector<size_t>::iterator it = complaints.begin(); it != complaints.end(); ++it)
+		{
 			complaints_counter[*it]++; // count my own complaints
+			complainers[*it].push_back(i);
+		}
 		complaints.clear();
 		for (size_t j = 0; j < n; j++)
 		{
@@ -625,6 +629,7 @@ bool GennaroJareckiKrawczykRabinDKG::Generate
 						err << "P_" << i << ": receiving complaint against P_" << who << " from P_" << j << std::endl;
 						complaints_counter[who]++;
 						dup.insert(std::pair<size_t, bool>(who, true)); // mark as counted for $P_j$
+						complainers[who].push_back(j);
 						if (who == i)
 							complaints_from.push_back(j);
 					}
@@ -673,6 +678,7 @@ bool GennaroJareckiKrawczykRabinDKG::Generate
 			if (j != i)
 			{	
 				size_t cnt = 0;
+				std::vector<size_t> answered; // complaints answered by $P_j$
 				do
 				{
 					if (!rbc->DeliverFrom(lhs, j))
@@ -684,6 +690,7 @@ bool GennaroJareckiKrawczykRabinDKG::Generate
 					size_t who = mpz_get_ui(lhs);
 					if (who >= n)
 						break; // end marker received
+					answered.push_back(who);
 					if (!rbc->DeliverFrom(foo, j))
 					{
 						err << "P_" << i << ": receiving foo failed; complaint against P_" << j << std::endl;
@@ -745,6 +752,15 @@ bool GennaroJareckiKrawczykRabinDKG::Generate
 					cnt++;
 				}
 				while (cnt <= n);
+				// a dealer who leaves a complaint unanswered is disqualified
+				for (std::vector<size_t>::iterator it = complainers[j].begin(); it != complainers[j].end(); ++it)
+				{
+					if (std::find(answered.begin(), answered.end(), *it) == answered.end())
+					{
+						err << "P_" << i << ": complaint of P_" << *it << " not answered; complaint against P_" << j << std::endl;
+						complaints.push_back(j);
+					}
+				}
 			}
 		}
 		// 2. Each party the builds the set of non-disqualified parties $QUAL$.
